@@ -30,7 +30,9 @@ CONSTANTS N,              \* configured workers
                           \* FALSE = the drain loop runs until the socket is empty
           MaxDrain,       \* bound on batches per wake-up when DrainBounded
           Q,              \* bound on datagrams queued per worker (keeps the state space finite)
-          AllowSignal
+          AllowSignal,
+          ReporterFragile \* FALSE = as coded and required: a reporter pass may take any time. TRUE = a (wrong) variant in which a
+                          \* pass that outlasts its cadence kills the reporter thread (kept to show the specification detects it)
 
 Workers == 1..N
 
@@ -41,7 +43,8 @@ VARIABLES mpc,      \* main: "spawn" | "postlocks" | "join" | "done" | "panicked
           wpc,      \* [Workers -> "unborn" | "want_lock" | "new_server" | "unlock" | "poll" | "drain" | "check" | "exited" | "panicked"]
           hcOwner,  \* workers whose TCP listener is bound
           keep,     \* KEEP_RUNNING
-          rpc,      \* reporter: "unborn" | "loop" | "exited"
+          rpc,      \* reporter (Reporter::processing_loop): "unborn" | "check" (at the loop condition) | "pass" (merging the
+                    \* queue, writing a report when one is due) | "sleep" (the fixed one-second sleep) | "exited" | "panicked"
           sockq,    \* [Workers -> 0..Q] datagrams waiting on each worker's socket
           drained,  \* [Workers -> Nat] batches handled in the current wake-up
           exit      \* "running" | "0" | "101"
@@ -69,7 +72,7 @@ m_spawned_all == /\ Running /\ mpc = "spawn" /\ mi = N + 1
 
 m_postlocks == /\ Running /\ mpc = "postlocks" /\ lock = 0
                /\ IF poisoned THEN MainPanics /\ UNCHANGED <<mi, rpc>>
-                  ELSE /\ mpc' = "join" /\ mi' = 1 /\ rpc' = (IF ClientStats THEN "loop" ELSE "unborn") /\ UNCHANGED exit
+                  ELSE /\ mpc' = "join" /\ mi' = 1 /\ rpc' = (IF ClientStats THEN "check" ELSE "unborn") /\ UNCHANGED exit
                /\ UNCHANGED <<lock, poisoned, wpc, hcOwner, keep, sockq, drained>>
 
 m_join == /\ Running /\ mpc = "join"
@@ -77,8 +80,9 @@ m_join == /\ Running /\ mpc = "join"
              THEN /\ wpc[mi] \in {"exited", "panicked"}
                   /\ IF wpc[mi] = "panicked" THEN MainPanics /\ UNCHANGED mi
                      ELSE mi' = mi + 1 /\ UNCHANGED <<mpc, exit>>
-             ELSE /\ (ClientStats => rpc = "exited")
-                  /\ mpc' = "done" /\ exit' = "0" /\ UNCHANGED mi
+             ELSE /\ (ClientStats => rpc \in {"exited", "panicked"})
+                  /\ IF rpc = "panicked" THEN MainPanics ELSE mpc' = "done" /\ exit' = "0"    \* join().expect on every thread
+                  /\ UNCHANGED mi
           /\ UNCHANGED <<lock, poisoned, wpc, hcOwner, keep, rpc, sockq, drained>>
 
 \* ---- worker w
@@ -118,10 +122,16 @@ w_check(w) == /\ Running /\ wpc[w] = "check"
               /\ wpc' = [wpc EXCEPT ![w] = IF keep THEN "poll" ELSE "exited"]
               /\ UNCHANGED <<mpc, mi, lock, poisoned, hcOwner, keep, rpc, sockq, drained, exit>>
 
-\* ---- reporter: polls the queue once per second and looks at the flag
-r_loop == /\ Running /\ rpc = "loop"
-          /\ rpc' = IF keep THEN "loop" ELSE "exited"
+\* ---- reporter: while KEEP_RUNNING { merge the queue; report if due; sleep(1 s) }. However long a pass takes (a large
+\* merge, a slow disk), the loop goes on: there is no step that ends the thread other than the flag
+r_check == /\ Running /\ rpc = "check"
+           /\ rpc' = IF keep THEN "pass" ELSE "exited"
+           /\ UNCHANGED <<mpc, mi, lock, poisoned, wpc, hcOwner, keep, sockq, drained, exit>>
+r_work == /\ Running /\ rpc = "pass" /\ (rpc' = "sleep" \/ (ReporterFragile /\ rpc' = "panicked"))
           /\ UNCHANGED <<mpc, mi, lock, poisoned, wpc, hcOwner, keep, sockq, drained, exit>>
+r_wake == /\ Running /\ rpc = "sleep" /\ rpc' = "check"
+          /\ UNCHANGED <<mpc, mi, lock, poisoned, wpc, hcOwner, keep, sockq, drained, exit>>
+r_loop == r_check \/ r_work \/ r_wake
 
 \* ---- environment
 Sig == /\ AllowSignal /\ Running /\ keep /\ keep' = FALSE
